@@ -122,7 +122,7 @@ func runC05(c *kc.Ctx) {
 					}
 					continue
 				}
-				if f.model != "" && !hasOp(p, "pick") {
+				if f.model != "" && !hasOp(p, "pick") && i%modelStride(c, f) == 0 {
 					mcs = append(mcs, mc{g, "grp " + f.model + " " + modelText(p), afinal})
 				}
 			}
